@@ -432,3 +432,29 @@ def _refine_rows(ctx):
 
 
 _refiners.append(_refine_rows)
+
+
+# ------------------------------------------------------------------------------------------------------------
+# helpers for text harnesses
+
+
+def char_width(I, cp):
+    """Width of code point cp under the *same* width function the code under test sees."""
+    if I.symbolic:
+        return text.sym_char_width(SymText("str", [cp])) if _isinstance(cp, SymInt) else str_util.get_char_width(chr(cp))
+    return str_util.get_char_width(chr(cp))
+
+
+def cps_of(t):
+    """code points / byte values of a (symbolic or concrete) text"""
+    if MODE == "sym" and _isinstance(t, SymText):
+        return list(t.cps)
+    if _isinstance(t, (bytes, bytearray)):
+        return list(t)
+    return [ord(c) for c in t]
+
+
+def mk_text(I, kind, cps):
+    if I.symbolic:
+        return SymText(kind, cps)
+    return bytes(cps) if kind == "bytes" else "".join(chr(c) for c in cps)
